@@ -413,7 +413,7 @@ Definition pushed (E : env) (s : state) (k : key) (v : value) : state :=
 
 Definition put_slow (E : env) (s : state) (k : key) (v : value) (t : rtype) : put_path * state :=
   match prune E (pushed E s k v) k with
-  | None => (PRefused, pushed E s k v)
+  | None => (PRefused, set_cache (pushed E s k v) (kremove k (cache (pushed E s k v))))
   | Some s2 => (PStored, set_tasks s2 (tasks s2 ++ [TWrite k v t]))
   end.
 
@@ -510,7 +510,9 @@ Proof.
         -- (* refused *)
            cbn [fst snd existsb andb]. rewrite orb_false_r. destruct (keyb k k') eqn:Ek; [exact I|].
            assert (N : k <> k') by (intros ->; rewrite keyb_refl in Ek; discriminate).
-           eapply J_frame; [|exact Hj]. apply frame_pushed_other; auto.
+           eapply J_frame; [|exact Hj].
+           apply (frame_trans E k s (pushed E s k' v)); [apply frame_pushed_other; exact N|].
+           apply frame_set_cache. intros x Hin. apply (in_aremove keyb keyb_eq) in Hin. tauto.
         -- (* accepted, the farthest record f is evicted *)
            cbn [fst snd existsb]. rewrite orb_false_r. destruct (keyb k k') eqn:Ek.
            ++ apply keyb_eq in Ek; subst k'. apply J_after_write.
@@ -695,3 +697,168 @@ Example settled_example_ok :
   get demo_env (run demo_env settled_example (init demo_env)) "a"%string = Some [145; 1; 2] /\
   contains (run demo_env settled_example (init demo_env)) "bb"%string = false.
 Proof. vm_compute. repeat split; reflexivity. Qed.
+
+(* ------------------------------------------------------------------ after the repair of put_verified:
+   what the store serves is held, or a write of it (or the notification of its outcome) is pending *)
+Definition Live (s : state) : Prop :=
+  forall k v, In (k, v) (cache s) -> contains s k = true \/ in_flight s k = true.
+
+Lemma in_flight_eq s k : in_flight s k = existsb (task_for k) (tasks s) || existsb (notif_for k) (chan s).
+Proof. reflexivity. Qed.
+
+Lemma contains_remove_other E s k k' : k <> k' -> contains (remove E s k') k = contains s k.
+Proof. intros N. unfold contains, remove; sproj. now rewrite contains_kremove_other. Qed.
+
+Lemma in_flight_remove E s k k' : in_flight (remove E s k') k = in_flight s k.
+Proof. rewrite !in_flight_eq. unfold remove; sproj. rewrite existsb_app. cbn [existsb task_for]. now bools. Qed.
+
+Lemma live_remove E s k' : Live s -> Live (remove E s k').
+Proof.
+  intros L k v Hin. assert (Hin' := Hin). unfold remove in Hin; sproj.
+  apply (in_aremove keyb keyb_eq) in Hin as [Hin N]. cbn [fst] in N.
+  rewrite contains_remove_other by auto. rewrite in_flight_remove. eauto.
+Qed.
+
+Lemma live_fold_remove E ks : forall s, Live s -> Live (fold_left (remove E) ks s).
+Proof. induction ks as [|k ks IH]; cbn; auto. intros s L. apply IH. now apply live_remove. Qed.
+
+Lemma live_sub s c : Live s -> (forall x, In x c -> In x (cache s)) -> Live (set_cache s c).
+Proof. intros L Hc k v Hin. apply (L k v). now apply Hc. Qed.
+
+Lemma live_put E s k' v t : Live s -> Live (snd (put_verified E s k' v t)).
+Proof.
+  intros L. destruct (put_verified_cases E s k' v t) as [[Ec ->]| ->].
+  - cbn [snd]. intros k x Hin. apply pushed_cache in Hin as [[_ Hin]|[-> ->]]; [exact (L _ _ Hin)|].
+    apply (L k' v). now apply (alookup_in keyb keyb_eq).
+  - unfold put_slow, prune. rewrite !pushed_idx, !pushed_farthest.
+    assert (New : forall s2 : state, (forall k x, In (k, x) (cache s2) -> (k <> k' /\ (contains s2 k = true \/ in_flight s2 k = true)) \/ k = k') ->
+                  Live (set_tasks s2 (tasks s2 ++ [TWrite k' v t]))).
+    { intros s2 H2 k x Hin. change (cache (set_tasks s2 (tasks s2 ++ [TWrite k' v t]))) with (cache s2) in Hin.
+      change (contains (set_tasks s2 (tasks s2 ++ [TWrite k' v t])) k) with (contains s2 k).
+      rewrite in_flight_eq. unfold set_tasks; sproj. rewrite existsb_app. cbn [existsb task_for].
+      destruct (H2 _ _ Hin) as [[_ [C|F]]| ->].
+      - now left.
+      - right. rewrite in_flight_eq in F. apply orb_true_iff in F as [F|F]; rewrite F; [reflexivity|now rewrite orb_true_r].
+      - right. rewrite keyb_refl. now rewrite !orb_true_r. }
+    assert (Old : forall k x, In (k, x) (cache (pushed E s k' v)) ->
+                  (k <> k' /\ (contains (pushed E s k' v) k = true \/ in_flight (pushed E s k' v) k = true)) \/ k = k').
+    { intros k x Hin. apply pushed_cache in Hin as [[N Hin]|[-> _]]; [left; split; auto; exact (L _ _ Hin)|now right]. }
+    destruct (len (idx s) <? e_max_records E); cbn [snd].
+    + apply New. exact Old.
+    + destruct (farthest s) as [[f fd]|]; cbn [snd].
+      * destruct (fd <? e_dist E k'); cbn [snd].
+        -- (* refused: the entry is taken out again *)
+           intros k x Hin. unfold set_cache in Hin; sproj. apply (in_aremove keyb keyb_eq) in Hin as [Hin N].
+           cbn [fst] in N. apply pushed_cache in Hin as [[_ Hin]|[-> _]]; [exact (L _ _ Hin)|congruence].
+        -- apply New. intros k x Hin. unfold remove in Hin; sproj.
+           apply (in_aremove keyb keyb_eq) in Hin as [Hin N]. cbn [fst] in N.
+           destruct (Old _ _ Hin) as [[N' H]| ->]; [|now right]. left. split; auto.
+           rewrite contains_remove_other by auto. now rewrite in_flight_remove.
+      * apply New. exact Old.
+Qed.
+
+Lemma existsb_mono_remove_nth {A} (p : A -> bool) i ts t :
+  nth_error ts i = Some t -> existsb p ts = true -> p t = true \/ existsb p (remove_nth i ts) = true.
+Proof. intros Nt H. rewrite (existsb_split p i _ _ Nt) in H. apply orb_true_iff in H. tauto. Qed.
+
+Lemma in_flight_run_task E s i k : in_flight s k = true -> in_flight (run_task E s i) k = true.
+Proof.
+  intros F. unfold run_task. destruct (enabled (tasks s) i); auto.
+  destruct (nth_error (tasks s) i) as [t|] eqn:Nt; auto.
+  rewrite in_flight_eq in *. apply orb_true_iff in F.
+  assert (T : existsb (task_for k) (tasks s) = true -> task_for k t = true \/ existsb (task_for k) (remove_nth i (tasks s)) = true)
+    by apply (existsb_mono_remove_nth _ _ _ _ Nt).
+  destruct t as [k' v ty|k'|n|c since]; cbn [exec_task].
+  - destruct (write_ok k'); unfold set_tasks, set_files; sproj; rewrite existsb_app; cbn [existsb task_for notif_for];
+      destruct F as [F|F]; try (rewrite F; now rewrite !orb_true_r);
+      destruct (T F) as [Ht|Hr]; cbn [task_for] in *; try rewrite Ht; try rewrite Hr; cbn; auto; now rewrite ?orb_true_r.
+  - unfold set_tasks, set_files; sproj. destruct F as [F|F]; [|rewrite F; now rewrite orb_true_r].
+    destruct (T F) as [Ht|Hr]; [discriminate|now rewrite Hr].
+  - unfold set_tasks, set_chan; sproj. rewrite existsb_app. cbn [existsb].
+    destruct F as [F|F]; [|rewrite F; now rewrite !orb_true_r].
+    destruct (T F) as [Ht|Hr]; [cbn [task_for] in Ht; rewrite Ht; now rewrite !orb_true_r|now rewrite Hr].
+  - unfold set_tasks; sproj. destruct F as [F|F]; [|rewrite F; now rewrite orb_true_r].
+    destruct (T F) as [Ht|Hr]; [discriminate|now rewrite Hr].
+Qed.
+
+Lemma live_run_task E s i : Live s -> Live (run_task E s i).
+Proof.
+  intros L k v Hin.
+  assert (Hc : cache (run_task E s i) = cache s /\ contains (run_task E s i) k = contains s k).
+  { unfold run_task. destruct (enabled (tasks s) i); auto. destruct (nth_error (tasks s) i) as [t|]; auto.
+    destruct t as [k' v' ty|k'|n|c since]; cbn [exec_task]; auto. destruct (write_ok k'); auto. }
+  destruct Hc as [Hc1 Hc2]. rewrite Hc1 in Hin. rewrite Hc2. destruct (L _ _ Hin) as [C|F]; auto.
+  right. now apply in_flight_run_task.
+Qed.
+
+Lemma live_deliver E s j : Live s -> Live (deliver E s j).
+Proof.
+  intros L. unfold deliver. destruct (nth_error (chan s) j) as [n|] eqn:Nt; auto.
+  assert (L1 : forall k v, In (k, v) (cache s) -> notif_for k n = false ->
+               contains (set_chan s (remove_nth j (chan s))) k = true \/ in_flight (set_chan s (remove_nth j (chan s))) k = true).
+  { intros k v Hin Nf. destruct (L _ _ Hin) as [C|F]; [now left|right].
+    rewrite in_flight_eq in *. unfold set_chan; sproj.
+    now rewrite (existsb_remove_nth_other (notif_for k) j _ _ Nt Nf). }
+  destruct n as [k' t|k'].
+  - intros k v Hin. change (cache (mark_as_stored E (set_chan s (remove_nth j (chan s))) k' t)) with (cache s) in Hin.
+    destruct (keyb k k') eqn:Ek.
+    + apply keyb_eq in Ek; subst. left. apply contains_mark_same.
+    + assert (N : k <> k') by (intros ->; rewrite keyb_refl in Ek; discriminate).
+      destruct (L1 _ _ Hin Ek) as [C|F].
+      * left. revert C. unfold contains, mark_as_stored; sproj. unfold klookup, kinsert.
+        now rewrite (alookup_ainsert_other keyb keyb_eq).
+      * now right.
+  - intros k v Hin. unfold remove in Hin; sproj. apply (in_aremove keyb keyb_eq) in Hin as [Hin N]. cbn [fst] in N.
+    rewrite contains_remove_other by auto. rewrite in_flight_remove.
+    apply (L1 _ _ Hin). cbn. apply keyb_neq; auto.
+Qed.
+
+Lemma live_step E s o : Live s -> Live (fst (step E s o)).
+Proof.
+  intros L. destruct o as [k v t|k v|k|k|i|j|d| | |k|tears]; cbn [step fst].
+  - pose proof (live_put E s k v t L) as P. destruct (put_verified E s k v t); exact P.
+  - destruct (local_type E v) as [t|]; [|exact L].
+    pose proof (live_put E s k v t L) as P. destruct (put_verified E s k v t) as [p s']. destruct (path_ok p); exact P.
+  - now apply live_remove.
+  - exact L.
+  - now apply live_run_task.
+  - now apply live_deliver.
+  - exact L.
+  - unfold cleanup. destruct (len (idx s) <? cleanup_threshold); [exact L|]. destruct (range s); [|exact L].
+    now apply live_fold_remove.
+  - intros k v Hin. change (cache (pay s)) with (cache s) in Hin. change (contains (pay s) k) with (contains s k).
+    destruct (L _ _ Hin) as [C|F]; auto. right. rewrite in_flight_eq in *. unfold pay; sproj.
+    rewrite existsb_app. apply orb_true_iff in F as [F|F]; rewrite F; [reflexivity|now rewrite orb_true_r].
+  - exact L.
+  - intros k v []. 
+Qed.
+
+Lemma live_run E : forall ops s, Live s -> Live (run E ops s).
+Proof. induction ops as [|o r IH]; intros s L; cbn [run fold_left]; auto. apply IH. now apply live_step. Qed.
+
+(* whatever the history (crashes included): a served record is held, or a write of it is in flight *)
+Lemma served_is_held_or_in_flight_lemma E ops k v :
+  get E (run E ops (init E)) k = Some v ->
+  contains (run E ops (init E)) k = true \/ in_flight (run E ops (init E)) k = true.
+Proof.
+  intros G. assert (L : Live (run E ops (init E))) by (apply live_run; intros k' v' []).
+  unfold get in G. destruct (klookup k (cache (run E ops (init E)))) as [v0|] eqn:Ec.
+  - apply (alookup_in keyb keyb_eq) in Ec. eauto.
+  - left. unfold contains. destruct (klookup k (idx (run E ops (init E)))); [reflexivity|discriminate].
+Qed.
+
+(* a refused record is not served *)
+Lemma refused_not_served_lemma E s k v t : contains s k = false ->
+  fst (put_verified E s k v t) = PRefused ->
+  klookup k (cache (snd (put_verified E s k v t))) = None /\ get E (snd (put_verified E s k v t)) k = None.
+Proof.
+  intros Nc. destruct (put_verified_cases E s k v t) as [[Ec ->]| ->]; [discriminate|].
+  unfold put_slow, prune. rewrite !pushed_idx, !pushed_farthest.
+  destruct (len (idx s) <? e_max_records E); [discriminate|].
+  destruct (farthest s) as [[f fd]|]; [|discriminate].
+  destruct (fd <? e_dist E k); [|discriminate]. intros _. cbn [snd].
+  assert (C : klookup k (kremove k (cache (pushed E s k v))) = None)
+    by apply (alookup_aremove_same keyb keyb_eq).
+  split; [exact C|]. unfold get, set_cache; sproj. rewrite C.
+  unfold contains in Nc. change (idx (pushed E s k v)) with (idx s). destruct (klookup k (idx s)); [discriminate|reflexivity].
+Qed.
